@@ -9,6 +9,7 @@ import (
 	"time"
 
 	"kmc/core"
+	"kmc/jr"
 	"kmc/ref"
 
 	"github.com/sboehler/knut/lib/model/commodity"
@@ -278,6 +279,56 @@ func c12Run(e *core.Env) {
 	// one more level on the reduced price alphabet
 	rec(0, maxN, small)
 	e.SetBound("declarations_reduced_alphabet", maxN)
+
+	// command level: the same price specification seen through `balance -v` (prices are
+	// declared on consecutive days, so "the price on a given day" includes the rule that a
+	// declaration takes effect on its own day, whatever its direction)
+	drv := e.Driver()
+	names := map[string]string{"V": "CHF", "X": "USD", "Y": "EUR", "Z": "AAPL"}
+	days := []string{"2020-01-30", "2020-01-31", "2020-02-01", "2020-02-02"}
+	var pairs []c12Decl
+	for _, c := range c12Coms {
+		for _, t := range c12Coms {
+			if c != t {
+				pairs = append(pairs, c12Decl{c, t, "2"})
+			}
+		}
+	}
+	depth := core.Pick(e, 3, 4)
+	var cur []c12Decl
+	var rj func(d int)
+	rj = func(d int) {
+		if e.Expired() {
+			return
+		}
+		if d > 0 && e.Take() {
+			var body []jr.Dir
+			for i, dc := range cur {
+				body = append(body, jr.P(days[i], names[dc.Com], dc.Price, names[dc.Tgt]))
+			}
+			last := days[len(cur)-1]
+			for _, c := range []string{"USD", "EUR", "AAPL"} {
+				body = append(body, jr.T(last, "hold "+c, jr.B(accOpening, accCash, "1", c)))
+			}
+			for _, cfg := range []ref.BalCfg{{Valuation: "CHF"}, {Valuation: "CHF", Interval: ref.Daily, NoClose: true}} {
+				key, detail, _, _ := c03One(drv, body, cfg)
+				e.Count("evaluations")
+				e.Count("command_level_cases")
+				if key != "" {
+					e.Violation(strings.Replace(key, "C03:", "C12:command:", 1), detail, c12Case{Decls: append([]c12Decl(nil), cur...)}, nil)
+				}
+			}
+		}
+		if d == depth {
+			return
+		}
+		for _, p := range pairs {
+			cur = append(cur, p)
+			rj(d + 1)
+			cur = cur[:len(cur)-1]
+		}
+	}
+	rj(0)
 }
 
 func c12Replay(e *core.Env, data json.RawMessage) (bool, string) {
